@@ -22,7 +22,10 @@ RULE = ("differential: reference outcomes are computed in one fresh interpreter 
         "the 4 validators, _from_base (2 families), is_base_type x2, the JSON encoder, _convert_numpy, store into "
         "dict / list / attribute dict (node class, memory, disk), merge through update() and reset(), _to_base. "
         "Besides random permutations, every ordered pair (and, thorough, triple) of the instance-dependent numpy "
-        "values is run from a cold resolver state. evaluations = probe outcomes compared; distinct = "
+        "values is run from a cold resolver state. Retry histories: the same container objects are offered twice "
+        "(first with a leaf / key that is rejected, then repaired in place); deep-first-sight histories: a type no "
+        "resolver has seen is first met at the bottom of data nested 8..150 levels deep with the recursion limit "
+        "lowered to 140 (in a thread of its own), then a small value of that type is probed. evaluations = probe outcomes compared; distinct = "
         "(history hash, value, probe); non-trivial = the probe ran after >= 1 other value.")
 ASSUMPTIONS = [
     "a class registered as a virtual subclass *after* the resolver first saw it is a change of the type, not "
@@ -128,6 +131,24 @@ def run_shard(spec):
             gc.collect()  # let the classes created on the fly die, so that their addresses are reused
         out["samples"].append({"history": "random permutation", "first_values": [pool[i][0] for i in order[:8]],
                                "probe_order": probes[:5]})
+        # ---- retry histories: the same container objects offered twice (rejected, repaired in place, offered again)
+        for name, build, refname in c19pool.retry_scenarios():
+            for k in c19pool.PROBES:
+                obj, fix = build()
+                c19pool.run_probe(k, obj, scratch)
+                fix()
+                compare(f"retry:{name}", refname, k, c19pool.run_probe(k, obj, scratch), 1)
+                out["counters"]["retry_histories"] = out["counters"].get("retry_histories", 0) + 1
+        # ---- first sight of a type at the bottom of deeply nested data, close to the recursion limit
+        depths = [d for d in range(8, 150) if d % SHARDS[spec["tier"]] == spec["shard"]]
+        for d in depths:
+            for mapping in (False, True):
+                for k in c19pool.PROBES:
+                    got = c19pool.deep_first_sight(k, d, mapping, scratch)
+                    compare(f"deep_first_sight:{d}", "dyn_userdict" if mapping else "dyn_userlist", k, got, 1)
+                    out["counters"]["deep_first_sight"] = out["counters"].get("deep_first_sight", 0) + 1
+        for f in os.listdir(scratch):
+            os.remove(os.path.join(scratch, f))
     finally:
         shutil.rmtree(scratch, ignore_errors=True)
     # ---- cold pair / triple orders of the instance-dependent values: each in its own interpreter
